@@ -294,7 +294,83 @@ def _tempfile_facts(fn: ast.FunctionDef) -> dict:
     if sibling is None:
         raise TranslateError('make_tempfile: no assignment to self._temp_name found')
     excl = all('x' in m and 'w' not in m and 'a' not in m and '+' not in m and retry for m, _, retry in modes)
-    return dict(excl=excl, sibling=bool(sibling), modes=[[m, ln, r] for m, ln, r in modes])
+    return dict(excl=excl, sibling=bool(sibling), modes=[[m, ln, r] for m, ln, r in modes], loop=_loop_facts(fn))
+
+
+def _loop_facts(fn: ast.FunctionDef) -> dict:
+    """The shape of the temp-name loop: `for <i> in count(start)` (unbounded) / `range(..)` (bounded), the name
+    template, what the FileExistsError handler does, where the loop is left, whether the destination itself is
+    skipped.  Facts only; they are judged by named obligations."""
+    def has_open(node: ast.AST) -> bool:
+        return any(isinstance(c, ast.Call) and ((isinstance(c.func, ast.Attribute) and c.func.attr == 'open')
+                                                or (isinstance(c.func, ast.Name) and c.func.id == 'open'))
+                   for c in ast.walk(node))
+    loops = [n for n in ast.walk(fn) if isinstance(n, (ast.For, ast.While)) and has_open(n)]
+    if len(loops) != 1 or not isinstance(loops[0], ast.For) or not isinstance(loops[0].target, ast.Name):
+        raise TranslateError('make_tempfile: expected exactly one `for <name> in ...` loop around the open call')
+    loop = loops[0]
+    if loop.orelse:
+        raise TranslateError('make_tempfile: the temp-name loop has an else clause')
+    var = loop.target.id
+    it = loop.iter
+    start, unbounded = 0, False
+    fname = None
+    if isinstance(it, ast.Call):
+        f = it.func
+        fname = f.attr if isinstance(f, ast.Attribute) else (f.id if isinstance(f, ast.Name) else None)
+    if fname == 'count':
+        args = list(it.args)
+        kw = {k.arg: k.value for k in it.keywords}
+        st = args[0] if args else kw.get('start')
+        step = args[1] if len(args) > 1 else kw.get('step')
+        if st is not None:
+            if not (isinstance(st, ast.Constant) and isinstance(st.value, int) and st.value >= 0):
+                raise TranslateError('make_tempfile: count() start is not a literal natural number')
+            start = st.value
+        unbounded = step is None or (isinstance(step, ast.Constant) and step.value == 1)
+    elif fname == 'range':
+        a = it.args
+        if not all(isinstance(x, ast.Constant) and isinstance(x.value, int) for x in a) or not 1 <= len(a) <= 2:
+            raise TranslateError('make_tempfile: range() bounds are not literals')
+        start = a[0].value if len(a) == 2 else 0
+        unbounded = False
+    else:
+        raise TranslateError(f'make_tempfile: unsupported loop iterator `{ast.unparse(it)}`')
+    # name template: self._temp_name = self.filename.with_name(f'tmp_{<var>}')
+    template_ok = False
+    for n in ast.walk(loop):
+        if isinstance(n, ast.Assign) and len(n.targets) == 1 and _key(n.targets[0]) == 'self._temp_name' \
+                and isinstance(n.value, ast.Call) and len(n.value.args) == 1:
+            a = n.value.args[0]
+            template_ok = (isinstance(a, ast.JoinedStr) and len(a.values) == 2
+                           and isinstance(a.values[0], ast.Constant) and a.values[0].value == 'tmp_'
+                           and isinstance(a.values[1], ast.FormattedValue) and isinstance(a.values[1].value, ast.Name)
+                           and a.values[1].value.id == var and a.values[1].format_spec is None
+                           and a.values[1].conversion == -1)
+    # the destination itself is skipped: if self._temp_name == self.filename: continue
+    skip_dest = False
+    for n in loop.body:
+        if isinstance(n, ast.If) and isinstance(n.test, ast.Compare) and len(n.test.ops) == 1 \
+                and isinstance(n.test.ops[0], ast.Eq) \
+                and {_key(n.test.left), _key(n.test.comparators[0])} == {'self._temp_name', 'self.filename'} \
+                and len(n.body) == 1 and isinstance(n.body[0], ast.Continue) and not n.orelse:
+            skip_dest = True
+    # the try around the open: a FileExistsError handler that only passes/continues; the loop is left by `break`
+    # directly after the open (same try body or its else clause) and nowhere else
+    handler_inert, break_after_open = False, False
+    tries = [n for n in loop.body if isinstance(n, ast.Try) and has_open(n)]
+    if len(tries) == 1:
+        t = tries[0]
+        hs = [h for h in t.handlers if (_handler_names(h, 'make_tempfile') or set()) & {'FileExistsError'}]
+        handler_inert = len(hs) == 1 and len(t.handlers) == 1 and all(
+            isinstance(b, (ast.Pass, ast.Continue)) or (isinstance(b, ast.Expr) and isinstance(b.value, ast.Constant))
+            for b in hs[0].body) and not t.finalbody
+        tail = t.body + t.orelse
+        break_after_open = bool(tail) and isinstance(tail[-1], ast.Break) and not any(
+            isinstance(x, (ast.Break, ast.Return)) for b in tail[:-1] for x in ast.walk(b))
+    other_exits = sum(isinstance(x, (ast.Break, ast.Return)) for x in ast.walk(loop))
+    return dict(start=start, unbounded=unbounded, template_ok=template_ok, skip_dest=skip_dest,
+                handler_inert=handler_inert, break_after_open=break_after_open and other_exits == 1)
 
 
 # ------------------------------------------------------------------------------------------- bsp.py census
@@ -447,6 +523,15 @@ def translate() -> tuple[str, dict]:
         '(* make_tempfile: every open mode is exclusive-create and FileExistsError is retried in the loop *)',
         f'Definition aw_excl : bool := {b(tf["excl"])}.',
         'Definition aw_proto : xproto := proto_of_prog aw_excl aw_exit_prog.',
+        '(* the temp-name loop: first index, unbounded iterator (itertools.count), name template tmp_<i>, the',
+        '   FileExistsError handler only passes, the loop is left only by the break after a successful open, the',
+        '   destination itself is never used as its own temp file *)',
+        f'Definition aw_loop_start : nat := {tf["loop"]["start"]}.',
+        f'Definition aw_loop_unbounded : bool := {b(tf["loop"]["unbounded"])}.',
+        f'Definition aw_loop_template_ok : bool := {b(tf["loop"]["template_ok"])}.',
+        f'Definition aw_loop_handler_inert : bool := {b(tf["loop"]["handler_inert"])}.',
+        f'Definition aw_loop_break_after_open : bool := {b(tf["loop"]["break_after_open"])}.',
+        f'Definition aw_loop_skips_destination : bool := {b(tf["loop"]["skip_dest"])}.',
         '(* the five flags of SM/AtomicWriter.v, read off the decision trees of the program (in the kernel) *)',
         'Definition aw_cfg : cfg := derive_cfg aw_proto.',
         '(* the temp name is a sibling of the destination (filename.with_name) *)',
